@@ -22,6 +22,25 @@ add("C18", "Hypothesis-generated inputs vs float64 / exact-rational reference or
     "float32 rounding tolerances as stated in DESIGN §3.",
     "DESIGN.md §5 C18")
 
+add("C01", "Hypothesis-generated training histories on scripted recording environments vs the environment log (reference-model / history-invariant oracle)",
+    "Generated (routine, episode script, budget, warm-up, buffer capacity, seeds) histories for 21 training routines run against a "
+    "self-describing recording environment; every stored transition (buffer proxy, final buffer arrays, episode datasets, A2C/PPO rollout "
+    "rows, tabular update arguments) is compared with the environment log, and the observation the policy / planner acted on is checked via "
+    "probe networks and wrapped callables. Exploration: tens of histories per routine per run, built so that nearly every history has "
+    "episode boundaries after warm-up and buffer wrap-around.",
+    "Trusts the test-side recording environment and buffer proxy; histories are <= 60 steps (quick) / 120 (thorough); acting clause for "
+    "continuous off-policy routines is covered through probe networks only.",
+    "DESIGN.md §5 C01")
+add("C08", "Hypothesis-generated add/sample/update/reset histories with stub generators vs an exact rational cumulative-interval oracle; chi-square frequency test",
+    "Generated operation histories over LAP, PER, the prioritized subtrajectory buffer and the multi-task wrapper; uniforms are placed on, "
+    "next to and inside chosen cumulative intervals through a stub generator, and the returned index is compared with an exact "
+    "fractions.Fraction inverse-CDF oracle (adjacent index only within a rigorous float64 rounding bound); priority initialisation, update "
+    "targets, max-priority tracking, importance weights, priority functions and empirical frequencies are checked against models written "
+    "from the statement.",
+    "Zero total priority and u=0 are outside the domain; update dtype drawn once per history (callers pass float32); mask and FIFO order "
+    "taken from the buffer under test (C02/C04 decide those).",
+    "DESIGN.md §5 C08")
+
 NOT_APPLICABLE = {}
 
 
